@@ -76,6 +76,10 @@ CLAIMED = {
             "bounded-exhaustive enumeration of grammar constructs composed to depth 2 x layout deviations, with CPython's ast positions and re-parsing as oracles",
             "83 expression atoms x 10 expression contexts, 28 simple statements x every atom, 28 compound statements x every simple statement as body, each with 0 or 1 of 9 layout deviations, are annotated with get_patched_ast; checked per module: annotation succeeds, write_ast reproduces the text, every positioned node has a region, regions nest, region text equals the interpreter's segment up to redundant parentheses, region re-parses to the same node.",
             "CPython 3.12 positions are the reference; regions may include redundant parentheses/blanks and a definition's decorators", "3/C08"),
+    "C19": ("exploration",
+            "bounded-exhaustive enumeration of (module, pattern abstracted from the module's own code, region, goal) against a reference AST matcher/transformer",
+            "For 4 modules, every distinct expression and statement run is turned into patterns by abstracting every subset of <=2 sub-expressions into wildcards (shared wildcards for equal sub-trees); SimilarFinder.get_matches over the whole module and over every statement span must report exactly the reference matcher's instances with equal bindings, and restructure.replace / Restructure with 4 goals must parse to the reference AST transformation (goal == pattern leaves the tree unchanged).",
+            "reference matcher: structural ast equality ignoring expression context, written independently (60 lines); matches identified by interpreter positions", "3/C19"),
 }
 
 PENDING_REASON = "check not built yet in this session (see DESIGN.md section 8 build order); nothing is claimed for it"
